@@ -10,7 +10,14 @@ The allocator breaks ties between equally good free blocks with
 address.  The harness rebinds that module global for the duration of each
 allocating call: the candidates are sorted by start address and the answer is
 taken from the operation itself (`['alloc', n, picks]`), so every answer is a
-branch of the search and a history fully determines the run."""
+branch of the search and a history fully determines the run.
+
+Besides alloc / free / second free the menus contain the other ways an index
+reaches `allocator.free`: frees of addresses that are not the start of a live
+range (objects made with an explicit index, sub-buses, foreign indices just
+outside the allocator's range) and `Buffer.free_all` with the handles it
+outlives.  All runs of a tier are explored level by level in one pool map
+(`run_many`, same worker function and bookkeeping as histbfs.run)."""
 
 import copy
 import contextlib
@@ -117,7 +124,13 @@ def _exc(e):
 # ---- system 1: the block allocator -----------------------------------------
 
 class AllocSys:
-    """params: size, pos (reserved), addr_offset, ns (request sizes)."""
+    """params: size, pos (reserved), addr_offset, ns (request sizes), xfree
+    (optional: the menu also offers free(addr) for every address that is not
+    the start of a live range nor a start freed earlier: inside a live range,
+    the start of a never allocated block, a reserved index, and the foreign
+    addresses just outside the allocator's own index range - what
+    `Bus(n, server, index).free()` / `bus.sub_bus(k).free()` send to the
+    allocator)."""
 
     def __init__(self, params):
         from sc3.synth import _engine
@@ -128,6 +141,15 @@ class AllocSys:
         self.tag = 'off0' if off == 0 else 'off+'
         self.freed_earlier = set()
         self.last = None
+        self.xfree = bool(params.get('xfree'))
+        self.span = (off, size)
+
+    def xfree_addresses(self):
+        off, size = self.span
+        own = [a for a in range(off, off + size)
+               if a not in self.ref.live and a not in self.freed_earlier]
+        below = list(range(max(0, off - size - 1), off))
+        return sorted(set(own + below + [off + size]))
 
     def ops(self):
         o = []
@@ -139,12 +161,29 @@ class AllocSys:
         for st in sorted(self.freed_earlier - set(self.ref.live)):
             o.append(['refree', st])
         o.append(['free', None])
+        if self.xfree:
+            for a in self.xfree_addresses():
+                o.append(['xfree', a])
         return o
 
     def apply(self, op):
         dis = []
         name = op[0]
-        if name == 'alloc':
+        if name == 'xfree':
+            # a free of an address the allocator never handed out (or not at
+            # this start): the model does not change; whether the call
+            # raises is a don't-care, later answers are judged as always
+            addr = op[1]
+            if addr in self.ref.live or addr in self.freed_earlier:
+                raise core.HarnessError(f'{op}: not a foreign address')
+            if not self.tag.endswith('/after-xfree'):
+                self.tag += '/after-xfree'
+            try:
+                self.a.free(addr)
+                obs = None
+            except Exception as e:
+                obs = _exc(e)
+        elif name == 'alloc':
             _, n, picks = op
             with tiebreak(Chooser(picks, strict=True)) as ch:
                 try:
@@ -257,10 +296,28 @@ def _get_server():
     return _server
 
 
+SPACES = ('control', 'audio', 'buffer')
+
+
+def _reserved(params):
+    r = params['reserved']
+    return dict(r) if isinstance(r, dict) else {k: r for k in SPACES}
+
+
+def _io(params):
+    return (params.get('outs', IO_CHANNELS // 2),
+            params.get('ins', IO_CHANNELS // 2))
+
+
 class ServerSys:
     """params: client, logins, control, audio, buffers (server-wide counts;
-    audio excludes the i/o channels), reserved, initial_node_id, kinds (which
-    object kinds the operation menu offers)."""
+    audio excludes the i/o channels), reserved (one number or one per index
+    space), outs / ins (hardware channels in front of the private audio
+    buses, default 2 + 2), initial_node_id, kinds (which object kinds the
+    operation menu offers: 'control', 'audio', 'buffer', 'node'; 'gnode' =
+    node ids through Group.basic_new; 'free_all' = Buffer.free_all; 'x' =
+    objects made with an explicit index / bufnum outside the live starts and
+    freed at once)."""
 
     def __init__(self, params):
         from sc3.base.main import main
@@ -268,13 +325,15 @@ class ServerSys:
         s = _get_server()
         o = s.options
         o.max_logins = params['logins']
-        o.input_channels = o.output_channels = IO_CHANNELS // 2
+        o.output_channels, o.input_channels = _io(params)
+        first = sum(_io(params))
+        res = _reserved(params)
         o.control_buses = params['control']
-        o.audio_buses = params['audio'] + IO_CHANNELS
+        o.audio_buses = params['audio'] + first
         o.buffers = params['buffers']
-        o.reserved_control_buses = params['reserved']
-        o.reserved_audio_buses = params['reserved']
-        o.reserved_buffers = params['reserved']
+        o.reserved_control_buses = res['control']
+        o.reserved_audio_buses = res['audio']
+        o.reserved_buffers = res['buffer']
         o.initial_node_id = params['initial_node_id']
         if s._status_watcher.max_logins != params['logins']:
             raise core.HarnessError('server does not use options.max_logins')
@@ -282,19 +341,19 @@ class ServerSys:
         if s.client_id != params['client']:
             raise core.HarnessError('client id not accepted')
         self.s = s
-        c, L, r = params['client'], params['logins'], params['reserved']
+        c, L = params['client'], params['logins']
         self.ref = {
             'control': alloc_ref.RangeModel(*alloc_ref.partition(
-                o.control_buses, L, c, 0, r)),
+                o.control_buses, L, c, 0, res['control'])),
             'audio': alloc_ref.RangeModel(*alloc_ref.partition(
-                o.audio_buses, L, c, IO_CHANNELS, r)),
+                o.audio_buses, L, c, first, res['audio'])),
             'buffer': alloc_ref.RangeModel(*alloc_ref.partition(
-                o.buffers, L, c, 0, r)),
+                o.buffers, L, c, 0, res['buffer'])),
         }
         self.nodes = alloc_ref.NodeIdModel(c, params['initial_node_id'])
         self.tag = 'client0' if c == 0 else 'client+'
         self.kinds = params['kinds']
-        self.objs = []       # [space, [objects], start, live]
+        self.objs = []       # [space, [objects], start, live, stale]
         self.last = None
 
     def _allocator(self, space):
@@ -307,17 +366,48 @@ class ServerSys:
         for name, space, ns in (('cbus', 'control', (1, 2)),
                                 ('abus', 'audio', (1, 2)),
                                 ('buf', 'buffer', (1,)),
-                                ('bufs', 'buffer', (2, 3))):
+                                ('bufs', 'buffer', (1, 2, 3))):
             if space not in self.kinds:
                 continue
             for n in ns:
                 for picks in pick_menus(self._allocator(space), n):
                     o.append([name, n, picks])
-        for i in range(len(self.objs)):
+        for i, ent in enumerate(self.objs):
+            # a handle outlived by Buffer.free_all still carries its number:
+            # freeing it is a double free unless that number is the start of
+            # a range handed out since (aliasing: not decided, not offered)
+            if ent[4] and any(st in self.ref[ent[0]].live
+                              for st in self._ids(ent)):
+                continue
             o.append(['free', i])
         if 'node' in self.kinds:
             o.append(['node'])
+        if 'gnode' in self.kinds:
+            o.append(['gnode'])
+        if 'free_all' in self.kinds:
+            o.append(['free_all'])
+        if 'x' in self.kinds:
+            for space in SPACES:
+                if space in self.kinds:
+                    for k in self.x_indices(space):
+                        o.append(['xfree', space, k])
         return o
+
+    @staticmethod
+    def _ids(ent):
+        return list(range(ent[2], ent[2] + len(ent[1]))) \
+            if ent[0] == 'buffer' else [ent[2]]
+
+    def x_indices(self, space):
+        """Explicit indices for throw-away objects: the first index of the
+        whole space, the index just below the first one this client may use
+        (a reserved one, an i/o channel or the previous client's last), the
+        index just above the partition, and the second index of every live
+        range of two or more."""
+        ref = self.ref[space]
+        ks = {0, ref.lo - 1, ref.hi}
+        ks |= {s + 1 for s, m in ref.live.items() if m >= 2}
+        return sorted(k for k in ks if k >= 0 and k not in ref.live)
 
     def _construct(self, name, n):
         from sc3.synth.bus import AudioBus, ControlBus
@@ -373,10 +463,15 @@ class ServerSys:
                                 f'{ref.listing()}; partition '
                                 f'[{ref.lo}, {ref.hi})'))
                 if objs is not None:
-                    self.objs.append([space, objs, obs, True])
+                    self.objs.append([space, objs, obs, True, False])
         elif name == 'free':
             ent = self.objs[op[1]]
-            space, objs, start, live = ent
+            space, objs, start, live, stale = ent
+            if stale and any(st in self.ref[space].live
+                             for st in self._ids(ent)):
+                raise core.HarnessError(f'{op}: stale handle aliases a live '
+                                        'range')
+            ent[4] = False       # its numbers are gone after this free
             if live:
                 if not self.ref[space].free(start):
                     raise core.HarnessError(f'{op}: model lost a live range')
@@ -390,9 +485,52 @@ class ServerSys:
                 kind = 'free-raises' if live else 'double-free-raises'
                 dis.append((f'server-{space}-{kind}/{self.tag}',
                             'no exception', obs, ''))
-        elif name == 'node':
+        elif name == 'free_all':
+            # every buffer number of this client is returned; the handles
+            # keep their numbers (stale)
+            from sc3.synth.buffer import Buffer
+            self.ref['buffer'].live.clear()
+            for ent in self.objs:
+                if ent[0] == 'buffer' and ent[3]:
+                    ent[3] = False
+                    ent[4] = True
+            obs = None
             try:
-                obs = self.s._next_node_id()
+                Buffer.free_all(self.s)
+            except Exception as e:
+                obs = _exc(e)
+                dis.append((f'server-buffer-free-all-raises/{self.tag}',
+                            'no exception', obs, ''))
+        elif name == 'xfree':
+            # an object made with an explicit index never allocates; freeing
+            # it hands an index to the allocator that is not the start of a
+            # live range: nothing changes in the model.  Exceptions are a
+            # don't-care.
+            _, space, k = op
+            if k in self.ref[space].live:
+                raise core.HarnessError(f'{op}: index is a live start')
+            if not self.tag.endswith('/after-xfree'):
+                self.tag += '/after-xfree'
+            from sc3.synth.bus import AudioBus, ControlBus
+            from sc3.synth.buffer import Buffer
+            try:
+                if space == 'control':
+                    b = ControlBus(1, self.s, k)
+                elif space == 'audio':
+                    b = AudioBus(1, self.s, k)
+                else:
+                    b = Buffer(8, 1, self.s, k)
+                b.free()
+                obs = None
+            except Exception as e:
+                obs = _exc(e)
+        elif name in ('node', 'gnode'):
+            try:
+                if name == 'node':
+                    obs = self.s._next_node_id()
+                else:
+                    from sc3.synth.node import Group
+                    obs = Group.basic_new(self.s).node_id
             except Exception as e:
                 obs = _exc(e)
                 dis.append((f'server-nodeid-raises/{self.tag}', 'an id', obs,
@@ -410,7 +548,7 @@ class ServerSys:
     def key(self):
         return [[self.ref[k].listing() for k in ('control', 'audio',
                                                  'buffer')],
-                [[e[0], e[2], len(e[1]), e[3]] for e in self.objs],
+                [[e[0], e[2], len(e[1]), e[3], e[4]] for e in self.objs],
                 [impl_key(self._allocator(k))
                  for k in ('control', 'audio', 'buffer')],
                 self.nodes.count]
@@ -439,19 +577,169 @@ def offset_positive(v, **_):
     return False
 
 
-PREDICATES = {'offset_positive': offset_positive}
+def foreign_free_below_offset(v, **_):
+    """The history hands the failing allocator, before the failing request,
+    an index below its address offset and not more than its size below
+    (`array[addr - addr_offset]` with a negative index counts from the end)."""
+    c = v['case']
+    p, hist = c['params'], c['history'][:-1]
+    if c['system'] == 'alloc':
+        off, size = p['addr_offset'], p['size']
+        return any(op[0] == 'xfree' and off - size <= op[1] < off
+                   for op in hist)
+    if c['system'] == 'server':
+        L, cl = p['logins'], p['client']
+        first = sum(_io(p))
+        for space, total, lead in (('control', p['control'], 0),
+                                   ('audio', p['audio'] + first, first),
+                                   ('buffer', p['buffers'], 0)):
+            if f'-{space}-' not in v['kind']:
+                continue
+            lo, hi = alloc_ref.partition(total, L, cl, lead, 0)
+            if any(op[0] == 'xfree' and op[1] == space
+                   and lo - (hi - lo) <= op[2] < lo for op in hist):
+                return True
+    return False
+
+
+PREDICATES = {'offset_positive': offset_positive,
+              'foreign_free_below_offset': foreign_free_below_offset}
 
 
 # ---- parent -----------------------------------------------------------------
 
-def alloc_configs(sizes, ns, offsets):
+def alloc_configs(sizes, ns, offsets, poss=(0, 1), **more):
     out = []
     for size in sizes:
-        for pos in (0, 1):
+        for pos in poss:
             for off in offsets(size):
-                out.append({'size': size, 'pos': pos, 'addr_offset': off,
-                            'ns': list(ns)})
+                out.append(dict({'size': size, 'pos': pos, 'addr_offset': off,
+                                 'ns': list(ns(size, pos)) if callable(ns)
+                                 else list(ns)}, **more))
     return out
+
+
+def expand_tagged(job):
+    """Worker: histbfs.expand, the result labelled with the run it is for."""
+    r = histbfs.expand(job)
+    r['run'] = job['run']
+    return r
+
+
+def run_many(ctx, runs, mode='nrt', batch=32):
+    """histbfs.run for several (system, params, depth) at once: the same
+    level-synchronous BFS per run (same worker function, same bookkeeping and
+    ctx.bounds entries), but the frontier batches of all runs of one level
+    share one pool map, and results are consumed in job order.  A single run
+    has frontiers far too small to occupy the workers."""
+    st = [{'seen': {'<root>'}, 'frontier': [[]], 'states': 1, 'levels': [],
+           'completed': 0, 'active': True} for _ in runs]
+    for level in range(1, max(r['depth'] for r in runs) + 1):
+        jobs = []
+        for ri, (r, s) in enumerate(zip(runs, st)):
+            if not s['active']:
+                continue
+            if level > r['depth']:
+                s['active'] = False
+                continue
+            if not s['frontier']:
+                s['completed'] = r['depth']   # exhausted below the bound
+                s['active'] = False
+                continue
+            fr = s['frontier']
+            order = core.shard_order(len(fr), ctx.seed + level)
+            fr = [fr[i] for i in order]
+            s['frontier_in'] = len(fr)
+            s['nxt'] = []
+            s['ntr'] = 0
+            for i in range(0, len(fr), batch):
+                jobs.append({'module': MODNAME, 'system': r['system'],
+                             'params': r['params'], 'hists': fr[i:i + batch],
+                             'run': ri})
+        if not jobs:
+            break
+        for res in ctx.map(mode, MODNAME, 'expand_tagged', jobs,
+                           ordered=True):
+            r, s = runs[res['run']], st[res['run']]
+            s['ntr'] += res['tr']
+            ctx.violation_count += res['nviol'] - len(res['viol'])
+            for v in res['viol']:
+                v['case']['module'] = MODNAME
+                ctx.violation(v)
+            for o in res['out']:
+                ctx.outcomes.add(o)
+            for h2, k, nt, ok in res['children']:
+                if k in s['seen']:
+                    continue
+                s['seen'].add(k)
+                s['states'] += 1
+                if nt:
+                    ctx.nontrivial += 1
+                if ok:
+                    s['nxt'].append(h2)
+                if len(ctx.samples) < 4 and nt and \
+                        level >= min(r['depth'], 3):
+                    ctx.samples.append({'system': r['system'],
+                                        'params': r['params'],
+                                        'history': h2})
+        timeout = ctx.out_of_time()
+        for r, s in zip(runs, st):
+            if not s['active'] or 'nxt' not in s:
+                continue
+            ctx.transitions += s['ntr']
+            ctx.evaluations += s['ntr']
+            ctx.traces += s['ntr']
+            s['levels'].append({'depth': level,
+                                'frontier_in': s['frontier_in'],
+                                'transitions': s['ntr'],
+                                'new_states': len(s['nxt'])})
+            s['nxt'].sort(key=core.canon)
+            s['frontier'] = s.pop('nxt')
+            s['completed'] = level
+            if timeout:
+                ctx.caps.append(f"{r['label']}: time cap hit after depth "
+                                f"{level}")
+                s['active'] = False
+    for r, s in zip(runs, st):
+        ctx.states += s['states']
+        ctx.bounds[r['label']] = {'depth_completed': s['completed'],
+                                  'states': s['states'],
+                                  'levels': s['levels']}
+
+
+def _run(runs, system, params, depth):
+    runs.append({'system': system, 'params': params, 'depth': depth,
+                 'label': f'{system}:{core.canon(params)}'})
+
+
+NODE_USERS = (0, 1, 2, 30, 31)
+NODE_INITIALS = (0, 1000, 2 ** 26 - 3, 2 ** 26 - 2, 2 ** 26 - 1)
+# (client, logins); quick runs the first two and one more chosen by the seed
+CLIENTS = [(0, 2), (1, 2), (2, 3), (0, 1), (1, 3), (0, 3)]
+# reserved indices per space and the initial node id that goes with them:
+# every space is run without and with reserved indices, and within one
+# configuration all three differ (like every other option value of the
+# three spaces: a value read from the wrong option shows)
+VARIANTS = [({'control': 0, 'audio': 1, 'buffer': 2}, 1000),
+            ({'control': 1, 'audio': 2, 'buffer': 0}, 2 ** 26 - 3),
+            ({'control': 2, 'audio': 0, 'buffer': 1}, 2 ** 26 - 2)]
+
+
+def server_base(client, logins, reserved, initial):
+    """Per-client shares 4 / 5 / 6 (control / audio / buffer), each total with
+    the largest remainder that must be discarded (logins - 1); 3 outputs + 1
+    input in front of the private audio buses."""
+    return {'client': client, 'logins': logins,
+            'control': 4 * logins + logins - 1,
+            'audio': 5 * logins + logins - 1,
+            'buffers': 6 * logins + logins - 1,
+            'outs': 3, 'ins': 1,
+            'reserved': reserved, 'initial_node_id': initial}
+
+
+def wide_ns(size, pos):
+    """1, 2, 3, the whole partition and one more than the partition."""
+    return sorted({1, 2, 3, size - pos, size - pos + 1})
 
 
 def main(ctx):
@@ -459,19 +747,30 @@ def main(ctx):
         'E2 BFS over all histories of alloc(1|2|3) x every tie-break answer, '
         'free(start of a live range), free(a start freed earlier that is not '
         'live now), free(None) on the real ContiguousBlockAllocator for every '
-        'listed (size, reserved pos, address offset); over histories of '
+        'listed (size, reserved pos 0/1/2, address offset); a second family '
+        '("xfree") adds alloc(whole partition), alloc(partition + 1) and '
+        'free(a) for every other address a of the allocator\'s index range '
+        '(inside a live range, never allocated, reserved) and for the '
+        'size + 1 addresses below and the one above it; over histories of '
         'ControlBus/AudioBus/Buffer/Buffer.new_consecutive constructors, '
-        'free, second free and node-id requests on a real Server for client '
-        'ids 0 and 1 of 2 logins (thorough: also 2 of 3); over node-id '
-        'allocation counts for users 0, 1, 31 across the '
-        'wrap-around.  States are deduplicated on (live ranges of the model, '
-        'starts freed earlier, block table, free lists in dictionary order '
-        'with block identity, top).  Non-trivial = the history contains at '
-        'least one free of a live range (every later operation then works on '
-        'freed / merged space; every tie-break with >= 2 candidates and every '
-        'double free of an earlier handle lies in such a history; histories '
-        'of allocations and free(None) only are counted trivial); for node '
-        'ids: the count exceeds the id window.')
+        'free, second free, Buffer.free_all and frees of the outlived '
+        'handles, throw-away objects with an explicit index (first index of '
+        'the space, just below / above the partition, second index of a live '
+        'range) and node-id requests (Server._next_node_id, '
+        'Group.basic_new) on a real Server whose three index spaces have '
+        'pairwise different sizes and reserved counts, for client ids 0 and '
+        '1 of 2 logins plus one of (2 of 3, 0 of 1, 1 of 3, 0 of 3) chosen '
+        'by the seed (thorough: all six); over node-id allocation counts for '
+        'users 0, 1, 2, 30, 31 x initial ids 0, 1000, 2^26-3, 2^26-2, 2^26-1 '
+        'across the wrap-around.  States are deduplicated on (live ranges of '
+        'the model, starts freed earlier, block table, free lists in '
+        'dictionary order with block identity, top).  Non-trivial = the '
+        'history contains at least one free of a live range (every later '
+        'operation then works on freed / merged space; every tie-break with '
+        '>= 2 candidates and every double free of an earlier handle lies in '
+        'such a history; histories of allocations and frees that free '
+        'nothing are counted trivial); for node ids: the count exceeds the '
+        'id window.')
     ctx.assumptions += [
         'reference model mc/oracles/alloc_ref.py: live ranges in a partition; '
         'any placement inside the partition and disjoint from live ranges is '
@@ -487,46 +786,71 @@ def main(ctx):
         '[initial id, 2^26-1] below the client prefix',
         'a Buffer.new_consecutive group is freed as a whole (the library '
         'documents that freeing members individually is unsupported)',
+        'a free of an index that is not the start of a live range (explicit '
+        'index objects, sub-buses, handles outlived by Buffer.free_all) '
+        'changes nothing in the model; whether it raises is not decided by '
+        'the statement and not compared (only a second free of a handle and '
+        'Buffer.free_all must not raise).  A handle outlived by free_all '
+        'whose number has been handed out again is not freed (aliasing is '
+        'not decided)',
     ]
     quick = ctx.tier == 'quick'
+    offs = lambda s: (0, 2, s, s + 2, 2 * s)
+    runs = []
     if quick:
-        cfgs = alloc_configs((4, 5, 6), (1, 2, 3),
-                             lambda s: (0, 2, s, s + 2, 2 * s))
-        depth = 8
+        cfgs = alloc_configs((4, 5, 6), (1, 2, 3), offs)
+        cfgs += alloc_configs((5,), (1, 2, 3), offs, poss=(2,))
+        depth = {4: 8, 5: 8, 6: 8}
+        wide = alloc_configs((4, 5), wide_ns, offs, poss=(0, 1, 2),
+                             xfree=True)
+        wdepth = {4: 6, 5: 6}
     else:
-        cfgs = alloc_configs((4, 5, 6, 7), (1, 2, 3),
-                             lambda s: (0, 2, s, s + 2, 2 * s))
+        cfgs = alloc_configs((4, 5, 6, 7), (1, 2, 3), offs)
+        cfgs += alloc_configs((5, 6), (1, 2, 3), offs, poss=(2,))
         cfgs += alloc_configs((8,), (1, 2, 4), lambda s: (0, 2, s, s + 2))
         depth = {4: 16, 5: 16, 6: 12, 7: 11, 8: 10}
+        wide = alloc_configs((4, 5, 6), wide_ns, offs, poss=(0, 1, 2),
+                             xfree=True)
+        wdepth = {4: 12, 5: 10, 6: 9}
     for p in cfgs:
-        histbfs.run(ctx, MODNAME, 'alloc', p,
-                    depth=depth if quick else depth[p['size']])
-    for user in (0, 1, 31):
-        for initial in (1000, 2 ** 26 - 3):
-            histbfs.run(ctx, MODNAME, 'nodeid',
-                        {'user': user, 'initial': initial},
-                        depth=8 if quick else 16)
-    clients = [(0, 2), (1, 2)] if quick else [(0, 2), (1, 2), (2, 3)]
+        _run(runs, 'alloc', p, depth[p['size']])
+    for p in wide:
+        _run(runs, 'alloc', p, wdepth[p['size']])
+    for user in NODE_USERS:
+        for initial in NODE_INITIALS:
+            _run(runs, 'nodeid', {'user': user, 'initial': initial},
+                 8 if quick else 16)
+    if quick:
+        clients = CLIENTS[:2] + [CLIENTS[2 + core.pick_slice(ctx.seed, 4)]]
+    else:
+        clients = CLIENTS
     for client, logins in clients:
-        for reserved in (0, 1):
-            base = {'client': client, 'logins': logins,
-                    'control': 4 * logins + 1, 'audio': 5 * logins + 1,
-                    'buffers': 4 * logins, 'reserved': reserved,
-                    'initial_node_id': 1000 if reserved == 0
-                    else 2 ** 26 - 3}
+        for reserved, initial in VARIANTS[:2] if quick else VARIANTS:
+            base = server_base(client, logins, reserved, initial)
             # all object kinds interleaved (cross-wiring of the allocators)
-            histbfs.run(ctx, MODNAME, 'server',
-                        dict(base, kinds=['control', 'audio', 'buffer',
-                                          'node']),
-                        depth=4 if quick else 5)
-            # one kind at a time, deeper
-            for kind in ('control', 'audio', 'buffer'):
-                histbfs.run(ctx, MODNAME, 'server', dict(base, kinds=[kind]),
-                            depth=6 if quick else 8)
+            _run(runs, 'server',
+                 dict(base, kinds=['control', 'audio', 'buffer', 'node',
+                                   'gnode', 'free_all']),
+                 4 if quick else 5)
+            # one kind at a time, deeper, with explicit-index objects
+            # (thorough: one level less for buffer partitions above 4)
+            big = 6 - reserved['buffer'] > 4
+            for kind in SPACES:
+                if kind == 'buffer':
+                    d = 6 if quick else 7 if big else 8
+                else:
+                    d = 7 if quick else 8
+                _run(runs, 'server', dict(base, kinds=[kind, 'x']), d)
+            # buffers with Buffer.free_all and the handles it outlives
+            _run(runs, 'server', dict(base, kinds=['buffer', 'free_all']),
+                 5 if quick else 6 if big else 7)
+    run_many(ctx, runs)
     closed = [k for k, b in ctx.bounds.items()
               if k.startswith('alloc:') and b['levels']
               and b['levels'][-1]['new_states'] == 0]
-    ctx.extra['alloc_configs'] = len(cfgs)
+    ctx.extra['alloc_configs'] = len(cfgs) + len(wide)
+    ctx.extra['alloc_configs_xfree_family'] = len(wide)
+    ctx.extra['server_configs'] = [list(c) for c in clients]
     ctx.extra['alloc_configs_with_closed_state_space'] = (
         len(closed) if not ctx.violations
         else 'n/a: violating states are not expanded')
@@ -562,6 +886,9 @@ def standalone(case):
         if op[0] == 'alloc':
             lines.append(f'picks[:] = {op[2]}; print("alloc({op[1]}) ->", '
                          f'a.alloc({op[1]}))')
+        elif op[0] == 'xfree':
+            lines.append(f'try: a.free({op[1]})  # not a live start\n'
+                         'except Exception as e: print(repr(e))')
         else:
             lines.append(f'a.free({op[1]})')
     return '\n'.join(lines) + '\n'
